@@ -22,6 +22,9 @@ type Emitter struct {
 	Subst map[*Term]*Term
 	// NoAtomRange suppresses range assertions on atoms (pure identities).
 	NoAtomRange bool
+	// Refined: use the refined intervals (see (*Ctx).Refine); only valid in scripts that also
+	// assert the range facts of the constraint set.
+	Refined bool
 	AtomsSeen   []*Term
 }
 
@@ -129,7 +132,11 @@ func (em *Emitter) define(t *Term, kids []*Term) {
 		em.names[t] = t.Name
 		fmt.Fprintf(&em.sb, "(declare-const %s Int)\n", t.Name)
 		if !em.NoAtomRange {
-			fmt.Fprintf(&em.sb, "(assert (and (<= %s %s) (<= %s %s)))\n", lit(t.Lo), t.Name, t.Name, lit(t.Hi))
+			hi := t.Hi
+			if em.Refined && t.RHi != nil {
+				hi = t.RHi
+			}
+			fmt.Fprintf(&em.sb, "(assert (and (<= %s %s) (<= %s %s)))\n", lit(t.Lo), t.Name, t.Name, lit(hi))
 		}
 		em.AtomsSeen = append(em.AtomsSeen, t)
 		return
@@ -140,8 +147,16 @@ func (em *Emitter) define(t *Term, kids []*Term) {
 	switch t.Op {
 	case OpAdd, OpMul, OpSub:
 		expr = fmt.Sprintf("(%s %s %s)", t.Op, a(0), a(1))
-		if t.Wrap && !em.Lift {
-			expr = fmt.Sprintf("(mod %s %s)", expr, R)
+		wrap := t.Wrap
+		if em.Refined && t.RHi != nil {
+			wrap = t.RWrap
+		}
+		if wrap && !em.Lift {
+			// value = expr mod r, written with an explicit (uniquely determined) quotient: this
+			// is much easier for the solvers than `mod` by a 254-bit constant
+			fmt.Fprintf(&em.sb, "(declare-const k%d Int)\n(define-fun %s () Int (- %s (* k%d %s)))\n(assert (and (<= 0 %s) (< %s %s)))\n", t.ID, name, expr, t.ID, R, name, name, R)
+			em.names[t] = name
+			return
 		}
 	case OpIte:
 		expr = fmt.Sprintf("(ite (= %s 1) %s %s)", a(0), a(1), a(2))
